@@ -132,6 +132,13 @@ func init() {
 			res = tt.Ite(tt.Eq(b, c8('s')), mkConst(32, 0x017F), res)
 			return res
 		}
+		// the two non-ASCII members of ASCII fold orbits: K k U+212A, S s U+017F
+		if in.w.branchT(tt.Eq(r, mkConst(32, 0x212A))) {
+			return mkConst(32, 'K')
+		}
+		if in.w.branchT(tt.Eq(r, mkConst(32, 0x017F))) {
+			return mkConst(32, 'S')
+		}
 		panic(unsupported("unicode.SimpleFold of a symbolic non-ASCII rune"))
 	})
 
